@@ -163,6 +163,22 @@ def pollComplete (ops : Ops S P R C) (w : WOp S P) (e : Env) (ans : Nat) : Step 
   | .inProgress _ => pollCompleteWithCode ops { w with code := none } e true w.code
   | .done => .panic "cannot re-poll after operation completes" []
 
+/-- First half of `cancel()` for an in-progress operation: everything that happens *before* the
+cancel intrinsic may be called — a queued completion code is processed (which may already finish the
+operation: `some c`), otherwise the waker is unregistered from the task. -/
+def cancelPrepare (ops : Ops S P R C) (w : WOp S P) (e : Env) (p0 : P) : Step (Option C × WOp S P × Env) :=
+  -- `match completion_status.code.take()`
+  match w.code with
+  | some c =>
+    (pollCompleteWithCode ops { w with code := none } e false (some c)).bind fun (r, w1, e1) =>
+      match r with
+      | .ready res => .ok (some (ops.intoCancel res), w1, e1) []
+      | .pending => .ok (none, w1, e1) []
+  | none =>
+    match ops.waitable p0 with
+    | none => .panic "in_progress_waitable: unwrap on None" []
+    | some h => (unregisterWaker w e h).bind fun (w1, e1) => .ok (none, w1, e1) []
+
 /-- `cancel()`; `ans` answers the cancel intrinsic if it is invoked -/
 def cancel (ops : Ops S P R C) (w : WOp S P) (e : Env) (ans : Nat) : Step (C × WOp S P × Env) :=
   match w.state with
@@ -171,19 +187,7 @@ def cancel (ops : Ops S P R C) (w : WOp S P) (e : Env) (ans : Nat) : Step (C × 
     .ok (c, { w with state := .done }, e) evs
   | .done => .panic "cannot cancel operation after completing it" []
   | .inProgress p0 =>
-    -- `match completion_status.code.take()`
-    let pre : Step (Option C × WOp S P × Env) :=
-      match w.code with
-      | some c =>
-        (pollCompleteWithCode ops { w with code := none } e false (some c)).bind fun (r, w1, e1) =>
-          match r with
-          | .ready res => .ok (some (ops.intoCancel res), w1, e1) []
-          | .pending => .ok (none, w1, e1) []
-      | none =>
-        match ops.waitable p0 with
-        | none => .panic "in_progress_waitable: unwrap on None" []
-        | some h => (unregisterWaker w e h).bind fun (w1, e1) => .ok (none, w1, e1) []
-    pre.bind fun (done, w1, e1) =>
+    (cancelPrepare ops w e p0).bind fun (done, w1, e1) =>
       match done with
       | some c => .ok (c, w1, e1) []
       | none =>
